@@ -162,6 +162,10 @@ def build(tier, seed):
         'note': 'Lemmas over the extracted price/Greek terms. The two lookback dominance clauses on the branch m >= 0 (>= European call, >= locked-in payoff) are bounded stand-ins (see bounded_note).',
     }
     # ---- bounded stand-ins (never counted as discharged): lookback dominance on the m >= 0 branch
+    # no-arbitrage relations are element-wise: a batch mixing running maxima below and above the strike prices every element by its own branch
+    from contracts import c08 as _c08
+    for fam_ in ('american_binary', 'lookback'):
+        obs.append(_c08.mixed_batch_ob(fam_, 'price', PROP))
     obs.extend(bounded_lookback(seed, tier))
     res['bounded_note'] = 'lookback >= European call and lookback >= K e^m - K for m >= 0: z3 cannot derive these from the atom axioms (they need the integral representation); checked on a seeded grid of %d domain points in 50-digit arithmetic on the extracted term. Bound: x in [-1,1], t in (0,5], v in (0,2], K in (0.1,10], m in [max(x,0), max(x,0)+0.5].' % (256 if tier == 'quick' else 4096)
     return res
